@@ -63,6 +63,12 @@ def make_margin(desc):
         return U._create_cgmy_model()
     if kind == "cgmy2":
         return U._create_cgmy_model(c=0.5, g=8, m=12, y=0.8)
+    if kind == "cgmy3":
+        return U._create_cgmy_model(c=0.1, g=5.0, m=6.0, y=0.5)
+    if kind == "cgmy4":
+        return U._create_cgmy_model(c=0.2, g=4.0, m=7.0, y=0.3)
+    if kind == "hem3":
+        return U._create_hem_model(sigma=0.1, p=0.4, eta1=8.0, eta2=6.0, intensity=3.0)
     if kind == "vg":
         return U._create_variancegamma_model()
     raise ValueError(desc)
